@@ -87,6 +87,7 @@ fn main() {
         "solve" => solve::main(&args),
         "infer" => infer::main(&args),
         "gopp" => gopp::main(&args),
+        "golex" => goparse::golex_main(),
         "namecat" => namecat::main(&args),
         "lower" => lower::main(&args),
         "patpos" => patpos::main(&args),
